@@ -50,5 +50,6 @@ Conforms(in, obs) ==
 
 Describe(in) == [verdict |-> Verdict(in), classes |-> [i \in DOMAIN in.words |-> WordClass(in.words[i])]]
 
+Beyond(in) == FALSE
 INSTANCE TraceCheck
 =============================================================================
